@@ -40,6 +40,10 @@ def slotsBelow (n : Nat) : Expr → Bool
   | .concat es => slotsBelowAll n es
   | .alt es => slotsBelowAll n es
   | .repeat e _ _ _ => slotsBelow n e
+  | .look e _ => slotsBelow n e
+  | .atomic e => slotsBelow n e
+  | .backrefExists g => decide (2 * g + 1 < n)
+  | .cond c y f => slotsBelow n c && slotsBelow n y && slotsBelow n f
   | _ => true
 def slotsBelowAll (n : Nat) : List Expr → Bool
   | [] => true
